@@ -451,6 +451,33 @@ def rule_r6(prog, res):
                         break
     res.floor('R6', 'fault message references in the WSDL generator',
               len(refs), 1)
+    # header message references: headers keep their own namespace (nothing
+    # moves them into tns), so the reference must use the tns prefix
+    hrefs = []
+    for nm, f in sorted(w.module.functions.items()):
+        if not nm.startswith('Wsdl11.'):
+            continue
+        for x in calls_in(f.node):
+            if call_name(x) == 'set' and len(x.args) == 2 and isinstance(
+                    x.args[0], ast.Constant) and x.args[0].value == 'message':
+                for a in ancestors(x):
+                    if isinstance(a, ast.For) and 'header' in unparse(
+                            a.iter):
+                        hrefs.append((f, x, unparse(x.args[1])))
+                        break
+    res.floor('R6', 'header message references in the WSDL generator',
+              len(hrefs), 2)
+    for f, x, t in hrefs:
+        where = '%s:%d' % (f.module.relpath, x.lineno)
+        ok = 'get_namespace_prefix' not in t and 'pref_tns' in t
+        res.ob('R6', where, '%s: header message reference %s' % (
+            f.qualname, t[:60]), 'ok' if ok else 'VIOLATED', nontrivial=True)
+        if not ok:
+            res.finding('R6', '%s|header-message-prefix' % f.qualname, where,
+                        '%s refers to the header message as %s: wsdl:message '
+                        'elements are defined in the target namespace, so '
+                        'for a header class of another namespace the QName '
+                        'does not resolve' % (f.qualname, t[:70]))
     own_prefix = [r for r in refs if 'get_namespace_prefix' in r[2] and
                   'pref_tns' not in r[2]]
     itf = prog.cls('spyne.interface._base:Interface')
@@ -606,6 +633,14 @@ _I = 'spyne/interface/_base.py'
 _T = 'spyne/util/toposort.py'
 
 MUTANTS = [
+    Mutant('header-ref-own-prefix', 'R6', 'fire', _W,
+           in_func('Wsdl11.add_bindings_for_methods',
+                   "soap_header.set('message', '%s:%s' % (pref_tns,\n"
+                   "                                                        "
+                   "in_header_message_name))",
+                   "soap_header.set('message', '%s:%s' % ("
+                   "header.get_namespace_prefix(self.interface), "
+                   "in_header_message_name))"), 'header-message-prefix'),
     Mutant('base-namespace-by-instance-table', 'R8', 'fire', _I,
            in_func('Interface.is_valid_import', "ns in namespace.PREFMAP",
                    "ns in self.prefmap"), 'table'),
